@@ -95,6 +95,7 @@ type Group struct {
 	FailAt   int    `json:"fail_at,omitempty"` // callback index that fails (-1 none)
 	ViaCLI   bool   `json:"via_cli,omitempty"` // loads go through cli.ProjectOptions.LoadProject
 	ShareFiles bool `json:"share_config_files,omitempty"` // goroutines loading the same layout pass the same ConfigFiles slice
+	ShareEnv   bool `json:"share_environment,omitempty"`  // goroutines loading the same layout pass the same Environment map (one ConfigDetails value used twice)
 }
 
 type GroupRec struct {
@@ -161,7 +162,7 @@ func spin(p *prng) {
 }
 
 // loadOnce performs one load with its OWN ConfigDetails, environment map and options.
-func loadOnce(L *Layout, p *prng, perturb bool) outcome { return loadVia(L, p, perturb, false, nil) }
+func loadOnce(L *Layout, p *prng, perturb bool) outcome { return loadVia(L, p, perturb, false, nil, nil) }
 
 // configFiles builds the list of files to load (file names only: the loader reads them).
 func configFiles(L *Layout) []types.ConfigFile {
@@ -174,10 +175,15 @@ func configFiles(L *Layout) []types.ConfigFile {
 
 // loadVia performs one load. Every call has its own Environment map and options; `shared`, when not nil, is a
 // ConfigFiles slice handed to several concurrent calls (an input the loader has no business writing to).
-func loadVia(L *Layout, p *prng, perturb, viaCLI bool, shared []types.ConfigFile) outcome {
+func loadVia(L *Layout, p *prng, perturb, viaCLI bool, shared []types.ConfigFile, sharedEnv types.Mapping) outcome {
 	cd := types.ConfigDetails{WorkingDir: filepath.Join(L.root, L.WorkingDir), Environment: types.Mapping{}}
-	for k, v := range L.Env {
-		cd.Environment[k] = v
+	if sharedEnv != nil {
+		// the same ConfigDetails value handed to several loads: an input, not a scratch pad
+		cd.Environment = sharedEnv
+	} else {
+		for k, v := range L.Env {
+			cd.Environment[k] = v
+		}
 	}
 	if shared != nil {
 		cd.ConfigFiles = shared
@@ -276,7 +282,7 @@ func TestSoloChild(t *testing.T) {
 			os.Exit(2)
 		}
 		L.name, L.root = n, roots[i]
-		last = loadVia(L, &prng{x: 1}, false, os.Getenv("VERIF_SOLO_CLI") == "1", nil)
+		last = loadVia(L, &prng{x: 1}, false, os.Getenv("VERIF_SOLO_CLI") == "1", nil, nil)
 	}
 	b, _ := json.Marshal(map[string]any{"ok": last.ok, "hash": last.hash, "err": last.err})
 	fmt.Println("SOLO-CHILD-RESULT " + string(b))
@@ -385,6 +391,7 @@ func TestRace(t *testing.T) {
 	}
 	var pending []pendingCmp
 	master := &prng{x: seed*1000003 + uint64(worker)*7919}
+	shareEnvGroups := 0
 	var runGroup func(g Group, idx int)
 	runGroup = func(g Group, idx int) {
 		before := logSize()
@@ -417,6 +424,18 @@ func TestRace(t *testing.T) {
 					}
 				}
 			}
+			sharedEnv := map[string]types.Mapping{}
+			if g.ShareEnv && !g.ViaCLI {
+				for _, n := range g.Layouts {
+					if sharedEnv[n] == nil {
+						m := types.Mapping{}
+						for k, v := range layouts[n].Env {
+							m[k] = v
+						}
+						sharedEnv[n] = m
+					}
+				}
+			}
 			for i := range g.Layouts {
 				wg.Add(1)
 				i := i
@@ -433,7 +452,13 @@ func TestRace(t *testing.T) {
 					if g.Perturb {
 						spin(p) // start stagger
 					}
-					outs[i] = loadVia(L, p, g.Perturb, g.ViaCLI, sharedFiles[L.name])
+					if g.ShareEnv && i > 0 {
+						// no synchronisation (the race detector needs none to see unordered accesses), only
+						// distance in time: accesses that truly overlap on a Go map make the runtime abort the
+						// whole process ("concurrent map writes"), which would cost the worker its remaining budget
+						time.Sleep(time.Duration(i) * 150 * time.Millisecond)
+					}
+					outs[i] = loadVia(L, p, g.Perturb, g.ViaCLI, sharedFiles[L.name], sharedEnv[L.name])
 				}()
 			}
 			for int(ready.Load()) < len(g.Layouts) {
@@ -533,7 +558,7 @@ func TestRace(t *testing.T) {
 				}
 				s, ok := solo[skey]
 				if !ok {
-					s = loadVia(layouts[name], &prng{x: seed}, false, pc.g.ViaCLI, nil)
+					s = loadVia(layouts[name], &prng{x: seed}, false, pc.g.ViaCLI, nil, nil)
 					solo[skey] = s
 					if s.ok {
 						res.Counters["solo-ok"]++
@@ -627,6 +652,11 @@ func TestRace(t *testing.T) {
 				g.ShareFiles = master.n(3) == 0
 				g.Threads = 2 + master.n(15)
 				same := master.n(3) == 0
+				if !g.ViaCLI && shareEnvGroups < 12 && master.n(4) == 0 {
+					// one ConfigDetails value (hence one Environment map) loaded by two goroutines
+					g.ShareEnv, g.Threads, same = true, 2, true
+					shareEnvGroups++
+				}
 				first := names[master.n(len(names))]
 				for i := 0; i < g.Threads; i++ {
 					if same {
@@ -635,7 +665,7 @@ func TestRace(t *testing.T) {
 						g.Layouts = append(g.Layouts, names[master.n(len(names))])
 					}
 				}
-				nt[fmt.Sprintf("loads:%v:%v:%v", g.Layouts, g.Perturb, g.ViaCLI)] = true
+				nt[fmt.Sprintf("loads:%v:%v:%v:%v", g.Layouts, g.Perturb, g.ViaCLI, g.ShareEnv)] = true
 			case k < 9:
 				g.Kind = "transform"
 				g.N = master.n(7)
